@@ -102,6 +102,12 @@ pub fn non_numbers(thorough: bool) -> Vec<OwnedTerm> {
     out.push(imp(vec![int(1), int(0)], int(2)));
     out.push(imp(vec![int(2)], int(0)));
     out.push(imp(vec![int(0)], int(9)));
+    // improper lists ending in every kind of term (against the longer lists above that share their first element)
+    for tail in [OwnedTerm::String("a".into()), OwnedTerm::String("".into()), OwnedTerm::BitBinary { bytes: vec![0xa0], bits: 3 }, OwnedTerm::Binary(vec![]), OwnedTerm::Float(2.0), OwnedTerm::Tuple(vec![]),
+        OwnedTerm::Tuple(vec![int(2)]), map_of(vec![]), OwnedTerm::Pid(pid("n@h", 1, 2, 3)), bigv(false, 1 << 64), internal_fun(1, 1, 2, 3, vec![])] {
+        out.push(imp(vec![int(1)], tail.clone()));
+        out.push(imp(vec![int(1), int(2)], tail));
+    }
     for t in [vec![], vec![int(1)], vec![int(1), int(2)], vec![int(2)], vec![atom("a")], vec![OwnedTerm::Float(1.0)], vec![int(2), int(1)], vec![int(1), int(1), int(1)]] {
         out.push(OwnedTerm::Tuple(t));
     }
@@ -140,6 +146,19 @@ pub fn non_numbers(thorough: bool) -> Vec<OwnedTerm> {
     out.push(OwnedTerm::Port(ExternalPort::new(Atom::new("n@h"), 1, 1)));
     out.push(OwnedTerm::Port(ExternalPort::new(Atom::new("n@h"), 1 << 40, 1)));
     out.push(OwnedTerm::Port(ExternalPort::with_local_ext_bytes(Atom::new("n@h"), 1, 1, vec![9u8])));
+    // identifiers whose fields use the upper half of their width (ports are 64-bit, everything else 32-bit)
+    for id in [0u64, (1 << 32) + 1, 1 << 41, (1 << 40) + 1, u64::MAX, u64::MAX - (1 << 32)] { out.push(OwnedTerm::Port(ExternalPort::new(Atom::new("n@h"), id, 1))); }
+    out.push(OwnedTerm::Port(ExternalPort::new(Atom::new("n@h"), 1, 0x1_0001)));
+    out.push(OwnedTerm::Port(ExternalPort::new(Atom::new("n@h"), 1, u32::MAX)));
+    out.push(OwnedTerm::Pid(pid("n@h", u32::MAX, 2, 3)));
+    out.push(OwnedTerm::Pid(pid("n@h", 0x8000_0001, 2, 3)));
+    out.push(OwnedTerm::Pid(pid("n@h", 1, u32::MAX, 3)));
+    out.push(OwnedTerm::Pid(pid("n@h", 1, 2, 0x1_0003)));
+    out.push(OwnedTerm::Pid(pid("n@h", 1, 2, u32::MAX)));
+    out.push(OwnedTerm::Reference(ExternalReference::new(Atom::new("n@h"), 0x1_0001, vec![1, 2, 3])));
+    out.push(OwnedTerm::Reference(ExternalReference::new(Atom::new("n@h"), 1, vec![1, 2, u32::MAX])));
+    out.push(OwnedTerm::Reference(ExternalReference::new(Atom::new("n@h"), 1, vec![0x8000_0001, 2, 3])));
+    out.push(OwnedTerm::Reference(ExternalReference::new(Atom::new("n@h"), 1, vec![1, 2, 3, 4, 5])));
     out.push(OwnedTerm::Reference(ExternalReference::new(Atom::new("n@h"), 1, vec![1, 2, 3])));
     out.push(OwnedTerm::Reference(ExternalReference::new(Atom::new("n@h"), 1, vec![1, 2, 4])));
     out.push(OwnedTerm::Reference(ExternalReference::new(Atom::new("n@h"), 1, vec![1, 2])));
